@@ -8,11 +8,13 @@ plugins configured behind the auth plugin.  Observed: audit events socket.connec
 while proxy code runs, the harness resolver log, what the origin reads, what the client reads, the recording
 plugins' call log.  Oracle: a reference credential predicate written from the property statement.
 """
+import os
+import shutil
 import base64
 import random
 from typing import Any, Dict, List, Optional, Tuple
 
-from rig import env, driver, shim, audit, resolver, monitors, h11util, conv
+from rig import env, driver, shim, audit, resolver, monitors, h11util, conv, pki
 
 env.quiet_logging()
 
@@ -44,7 +46,9 @@ SHARDS = {'quick': 8, 'thorough': 16}
 BUDGET_S = {'quick': 45, 'thorough': 800}
 
 CALLS: List[Tuple[str, str]] = []
-REQUEST_HOOKS = {'before_upstream_connection', 'handle_client_request', 'handle_client_data', 'handle_upstream_chunk', 'resolve_dns'}
+REQUEST_HOOKS = {'before_upstream_connection', 'handle_client_request', 'handle_client_data', 'handle_upstream_chunk', 'resolve_dns',
+                 'do_intercept'}
+_P: Dict[str, Any] = {}
 
 
 class RecA(HttpProxyBasePlugin):
@@ -57,6 +61,11 @@ class RecA(HttpProxyBasePlugin):
     def before_upstream_connection(self, request: HttpParser) -> Optional[HttpParser]:
         CALLS.append((self.TAG, 'before_upstream_connection'))
         return request
+
+    def do_intercept(self, request: HttpParser) -> bool:
+        # asked per request when TLS interception is configured; this deployment's plugin keeps tunnels opaque
+        CALLS.append((self.TAG, 'do_intercept'))
+        return False
 
     def handle_client_request(self, request: HttpParser) -> Optional[HttpParser]:
         CALLS.append((self.TAG, 'handle_client_request'))
@@ -123,6 +132,9 @@ def situations(rng: random.Random, cred: str) -> Dict[str, Tuple[List[bytes], st
         'token-only': ([tok], 'reject'),
         'empty-value': ([b''], 'reject'),
         'basicx': ([b'Basicx ' + tok], 'reject'),
+        # a scheme token that is only a piece of / contains "basic" is another scheme
+        'scheme-piece': ([rng.choice([b'b', b'B', b'c', b'Bas', b'Basi', b'asic', b'sic', b'aSi', b'BASI', b'a', b'ba']) + b' ' + tok], 'reject'),
+        'scheme-around': ([rng.choice([b'xBasic', b'Basic2', b'Basic,', b'Basic:', b'"Basic"', b'Basic-', b'BasicBasic', b'Basic=']) + b' ' + tok], 'reject'),
         'no-space': ([b'Basic' + tok], 'reject'),
         'substituted-char': ([b'Basic ' + sub1], 'reject'),
         'case-flipped-token': ([b'Basic ' + flip], 'reject' if flip != tok else 'accept'),
@@ -162,7 +174,26 @@ CONFIGS = {'plain': [], 'disable-headers': ['--disable-headers', 'x-blocked,cook
            'web-too': ['--enable-web-server']}
 
 
+def begin(tier: str) -> None:
+    d = env.workdir('c08', str(os.getpid()))
+    ca = pki.make_ca(d, 'interception-ca', rsa=False)
+    sign_key = pki.make_key(os.path.join(d, 'signing.key'), rsa=False)
+    certs = os.path.join(d, 'gen')
+    os.makedirs(certs, exist_ok=True)
+    _P.update({'dir': d, 'ca': ca, 'sign_key': sign_key, 'certs': certs})
+    # TLS interception configured next to --basic-auth; the recording plugins answer do_intercept with False, so an
+    # authenticated CONNECT is still an opaque tunnel and every other expectation of this check is unchanged
+    CONFIGS['tls-intercept'] = ['--ca-key-file', ca[0], '--ca-cert-file', ca[1], '--ca-signing-key-file', sign_key, '--ca-cert-dir', certs]
+
+
+def end() -> None:
+    if _P.get('dir'):
+        shutil.rmtree(_P['dir'], ignore_errors=True)
+
+
 def flags_for(cred: str, nplug: int, cfg: str = 'plain', via: str = 'flag') -> Any:
+    if cfg == 'tls-intercept':
+        nplug = max(nplug, 1)
     plugins = [RecA, RecB][:nplug]
     if via == 'kw':
         # the embedding API: proxy.Proxy([...], basic_auth='user:pass') / FlagParser.initialize(basic_auth=...)
@@ -176,6 +207,8 @@ def run_case(case: Dict[str, Any]) -> Dict[str, Any]:
     sits = situations(random.Random('c08sit:%s:%s' % (case['seed'], case['i'])), cred)
     sit = case['situation'] if case['situation'] in sits else 'exact'
     values, expected = sits[sit]
+    if case.get('cfg') == 'tls-intercept':
+        case = dict(case, plugins=max(case['plugins'], 1))
     flags = flags_for(cred, case['plugins'], case.get('cfg', 'plain'), case.get('cred_via', 'flag'))
     shim.S.reset()
     del CALLS[:]
@@ -324,6 +357,11 @@ def run_case(case: Dict[str, Any]) -> Dict[str, Any]:
     finally:
         audit.stop()
         rig.close()
+    if case.get('cfg') == 'tls-intercept' and method == 'CONNECT' and not any(v['key'].endswith('loop-died') for v in viol):
+        k = 'tls-intercept:connect-' + ('rejected' if obs.get('outcome:407') else 'served' if obs.get('outcome:served') else 'other')
+        obs[k] = 1
+        if obs.get('outcome:served') and ('A', 'do_intercept') in CALLS:
+            obs['tls-intercept:plugin-asked-on-served-connect'] = 1
     obs.update({'situation:' + sit: 1, 'method:' + method: 1, 'plugins:%d' % case['plugins']: 1, 'seg:' + case['seg']: 1,
                 'cfg:' + case.get('cfg', 'plain'): 1, 'cred_via:' + case.get('cred_via', 'flag'): 1, 'first_shape:' + case.get('first_shape', 'plain'): 1})
     nontrivial = bool(values) and values != [b'Basic ' + tok]
@@ -348,14 +386,14 @@ def cases(tier: str, seed: int):
                        'method': METHODS[(i + k) % len(METHODS)], 'seg': ['whole', 'two', 'bytes'][k],
                        'plugins': rng.choice([0, 1, 2]), 'name_casing': rng.randrange(5), 'by_name': rng.random() < 0.4,
                        'followups': rng.choice([0, 1, 3]), 'transport': rng.choice(['unix', 'tcp']),
-                       'mode': rng.choice(['local', 'local', 'remote']), 'cfg': rng.choice(['plain', 'plain'] + sorted(CONFIGS)),
+                       'mode': rng.choice(['local', 'local', 'remote']), 'cfg': rng.choice(['plain', 'plain', 'tls-intercept'] + sorted(set(CONFIGS) | {'tls-intercept'})),
                        'first_shape': rng.choice(['plain', 'plain', 'http10-keepalive', 'conn-te', 'conn-upgrade', 'conn-keepalive']),
                        'cred_via': 'kw' if i % 4 == 0 else 'flag'}
 
 
 def floors(tier: str) -> Dict[str, int]:
     return {'near_miss_tokens': 200, 'outcome:served': 150, 'outcome:407': 500, 'followups': 100, 'method:CONNECT': 100,
-            'plugins:2': 30, 'distinct:situations': 35, 'origin_requests_checked': 40, 'cfg:disable-headers': 40, 'cfg:small-buffers': 40, 'cred_via:kw': 100, 'first_shape:http10-keepalive': 40}
+            'plugins:2': 30, 'distinct:situations': 35, 'origin_requests_checked': 40, 'cfg:disable-headers': 40, 'cfg:small-buffers': 40, 'cfg:tls-intercept': 80, 'tls-intercept:connect-rejected': 8, 'tls-intercept:connect-served': 3, 'cred_via:kw': 100, 'first_shape:http10-keepalive': 40}
 
 
 if __name__ == '__main__':
